@@ -616,6 +616,26 @@ func c16CheckArguments(dir string) [][2]string {
 		{[]string{"-c", "--from-file", "prog.jq", "--arg", "x", "1"}, `{"a":1}`, `2`, 0},
 		{[]string{"-c", "-f", "missing.jq"}, `{"a":1}`, ``, 2},
 	}
+	// what a flag binds does not depend on how the main input is read
+	for _, mode := range [][]string{{}, {"-n"}, {"-s"}, {"-R"}, {"-R", "-s"}, {"-R", "-n"}, {"--stream"}, {"--stream", "-s"}, {"--stream", "-n"}, {"--yaml-input"}, {"-s", "-n"}} {
+		for _, b := range []struct {
+			flags []string
+			q     string
+			want  string
+		}{
+			{[]string{"--arg", "x", "1"}, "$x", `"1"`},
+			{[]string{"--argjson", "x", `{"a":[1,2.50]}`}, "$x", `{"a":[1,2.50]}`},
+			{[]string{"--slurpfile", "x", "sf.json"}, "$x", `[1,[2],{"a":3}]`},
+			{[]string{"--slurpfile", "x", "sf.json"}, "$ARGS.named.x", `[1,[2],{"a":3}]`},
+			{[]string{"--rawfile", "x", "rf.txt"}, "$x", `"raw text\nline 2"`},
+			{[]string{"--slurpfile", "x", "sf.json", "--rawfile", "y", "rf.txt"}, "[$x, $y]", `[[1,[2],{"a":3}],"raw text\nline 2"]`},
+		} {
+			args := append(append(append([]string{}, mode...), "-c"), b.flags...)
+			cases = append(cases, tc{append(args, b.q), "1\n", b.want, 0})
+		}
+		cases = append(cases, tc{append(append([]string{}, mode...), "-c", "$ARGS.positional", "--args", "a", "b"), "1\n", `["a","b"]`, 0})
+		cases = append(cases, tc{append(append([]string{}, mode...), "-c", "$ARGS.positional", "--jsonargs", "1", `{"a":[2]}`), "1\n", `[1,{"a":[2]}]`, 0})
+	}
 	var out [][2]string
 	for _, t := range cases {
 		r := RunCLIString(t.args, t.stdin)
@@ -655,7 +675,7 @@ func init() {
 	engine.Register(&engine.Check{
 		ID:    "C16",
 		Level: "fault_enumeration",
-		Rule: "every JSON document of a shape grammar (depth <= 2, thorough also depth 3 over a representative subset of the depth-2 documents; width <= 2; 4 scalar kinds; duplicate-free objects over 3 keys in both key orders; empty containers at every position) in 4 white-space styles is streamed: --stream events must equal the reference tostream of the document in document order, fromstream must rebuild it, tostream must agree up to key order; EVERY truncation byte of every document <= 60 bytes under --stream (events emitted are a prefix of the full event list, monotone in the cut, followed by exactly one error), default and -s modes; streams of 1..3 documents x separators x 8 read-chunk patterns (1, 7, 512, 4096, 16383, 16384, 16385, all): -s . = -n [inputs], order and exactly-once consumption by input/inputs, input past the end, every split over files and stdin, a malformed document after the valid ones; -R/-Rs/-Rn over texts incl. lines of 4095/4096/5000/70000 bytes x chunk patterns; --arg/--argjson/--slurpfile/--rawfile/--args/--jsonargs bindings incl. the same name bound twice within and across flag kinds; -f file.",
+		Rule: "every JSON document of a shape grammar (depth <= 2, thorough also depth 3 over a representative subset of the depth-2 documents; width <= 2; 4 scalar kinds; duplicate-free objects over 3 keys in both key orders; empty containers at every position) in 4 white-space styles is streamed: --stream events must equal the reference tostream of the document in document order, fromstream must rebuild it, tostream must agree up to key order; EVERY truncation byte of every document <= 60 bytes under --stream (events emitted are a prefix of the full event list, monotone in the cut, followed by exactly one error), default and -s modes; streams of 1..3 documents x separators x 8 read-chunk patterns (1, 7, 512, 4096, 16383, 16384, 16385, all): -s . = -n [inputs], order and exactly-once consumption by input/inputs, input past the end, every split over files and stdin, a malformed document after the valid ones; -R/-Rs/-Rn over texts incl. lines of 4095/4096/5000/70000 bytes x chunk patterns; --arg/--argjson/--slurpfile/--rawfile/--args/--jsonargs bindings incl. the same name bound twice within and across flag kinds, and every binding under 11 input-mode combinations (-n, -s, -R, -R -s, --stream, --stream -s, --yaml-input ...); -f file.",
 		Assume:         []string{"the in-process driver (hook VerifRun) with a chunked, non-seekable reader stands for a pipe; encoding/json parses the expected values"},
 		Run:            c16Run,
 		Replay:         c16Replay,
